@@ -25,9 +25,10 @@ def r1_census(ctx):
                 "pattern, narrowing, spread, simplify, resolver; the formatter is C17's) every unwrap/expect/panic/unreachable, slice/str indexing, "
                 "bounds assert and usize subtraction is discharged automatically or within its reviewed per-(function, kind) ceiling")
     F = ctx.facts
-    roots, reach = frontend_reach(F)
-    ctx.floor(R, "front-end functions", len(reach), 500)
-    census.run_census(ctx, R, reach, "c18.json")
+    with F.raw_mode():
+        roots, reach = frontend_reach(F)
+        ctx.floor(R, "front-end functions", len(reach), 500)
+        census.run_census(ctx, R, reach, "c18.json")
 
 
 def r2_no_unwrap_on_parsed_numbers(ctx):
